@@ -114,6 +114,31 @@ func TestVerifCtrlOKey(t *testing.T) {
 			done := make(chan struct{})
 			go func() { s.Do(ctx); close(done) }()
 			time.Sleep(20 * time.Millisecond)
+			if "lockwin" == c.Mode {
+				/* The write lock is held across the moment the silence timer is due (a long write to a slow terminal),
+				a chunk of shell output is waiting for the lock before the timer fires, the timer's callback behind it.
+				The chunk re-arms the mute; the callback, running right after it, must not unmute. */
+				t0 := time.Now()
+				s.t.ControlCharacterCallback(0x0F)
+				time.Sleep(1900*time.Millisecond - time.Since(t0))
+				s.wL.Lock()
+				och <- CLine{Plain: true, Line: "<CHUNK-IN-WINDOW>\n"}
+				time.Sleep(2150*time.Millisecond - time.Since(t0))
+				s.wL.Unlock()
+				time.Sleep(3000*time.Millisecond - time.Since(t0))
+				res["chunk_shown"] = seen("<CHUNK-IN-WINDOW>")
+				res["unmuted_at_3000"] = seen("Unmuting")
+				time.Sleep(4800*time.Millisecond - time.Since(t0))
+				res["unmuted_at_4800"] = seen("Unmuting")
+				cancel()
+				pw.Close()
+				select {
+				case <-done:
+				case <-time.After(1500 * time.Millisecond):
+				}
+				s.silenceTimer.Stop()
+				return
+			}
 			switch c.Mode {
 			case "forced":
 				pw.Write([]byte{0x0F})
